@@ -456,3 +456,94 @@ Definition model_run (fuel : nat) (scripts : list script) (plan : list xact)
   : list rec * list (tid * (tryres * tryres)) :=
   let (st, log) := sys_plan fuel scripts sys0 plan in
   (log, if spanic st then [] else final_obs st (roots_of log)).
+
+(* ------------------------------------------------------------------ *)
+(* Parts of the API outside the script systems                          *)
+(* ------------------------------------------------------------------ *)
+
+(* forwarder.rs with the whole life cycle of both halves: the sender is
+   consumed by [send] or dropped; the receiver can be dropped.
+   [Sender::send] on a dropped receiver hands the value back ([Err(value)]);
+   [try_receive] answers [SenderDropped] when nothing was sent and no sender
+   is left ([Rc::weak_count == 0]). *)
+Inductive fop := FSend (v : N) | FPoll (w : tid) | FTry | FDropSender | FDropReceiver.
+
+Inductive fout :=
+| FoSent (woken : option tid)   (* Ok(()), and the waker that was invoked *)
+| FoSendErr (v : N)             (* Err(v): receiver gone *)
+| FoPending | FoReady (v : N)
+| FoTry (res : tryres)
+| FoDropped                     (* a half was dropped *)
+| FoSkip                        (* operation impossible: that half no longer exists *)
+| FoPanic.
+
+Record fstate := mkF { f_rel : relay; f_sender : bool; f_receiver : bool }.
+
+Definition fstate0 : fstate := mkF RlPending true true.
+
+Definition f_op (s : fstate) (o : fop) : fstate * fout :=
+  match o with
+  | FSend v =>
+      if negb (f_sender s) then (s, FoSkip)
+      else if negb (f_receiver s) then (mkF (f_rel s) false false, FoSendErr v)
+      else match relay_send (f_rel s) v with
+           | (r', w, false) => (mkF r' false true, FoSent w)
+           | (r', _, true) => (mkF r' false true, FoPanic)
+           end
+  | FPoll w =>
+      if negb (f_receiver s) then (s, FoSkip)
+      else match relay_poll (f_rel s) w with
+           | (r', _, true) => (mkF r' (f_sender s) true, FoPanic)
+           | (r', Some v, false) => (mkF r' (f_sender s) true, FoReady v)
+           | (r', None, false) => (mkF r' (f_sender s) true, FoPending)
+           end
+  | FTry =>
+      if negb (f_receiver s) then (s, FoSkip)
+      else match f_rel s with
+           | RlPending | RlPolled _ =>
+               (s, FoTry (if f_sender s then TNotSent else TDropped))
+           | RlComputed v => (mkF RlDone (f_sender s) true, FoTry (TOk v))
+           | RlDone => (s, FoTry TAlready)
+           end
+  | FDropSender => if f_sender s then (mkF (f_rel s) false (f_receiver s), FoDropped) else (s, FoSkip)
+  | FDropReceiver => if f_receiver s then (mkF (f_rel s) (f_sender s) false, FoDropped) else (s, FoSkip)
+  end.
+
+(* stops after a panic *)
+Fixpoint f_run (s : fstate) (ops : list fop) : list fout :=
+  match ops with
+  | [] => []
+  | o :: ops =>
+      let (s', out) := f_op s o in
+      out :: match out with FoPanic => [] | _ => f_run s' ops end
+  end.
+
+(* After the plan the driver may drop the Executor and go on using what is
+   left: the Spawner (spawner.rs: SpawnError), the wakers (task.rs: a wake
+   without executor does nothing) and its receivers. *)
+Inductive dact := DSpawn (s : nat) | DPulse (k : nat).
+Inductive dout := DoSpawnErr | DoSpawned | DoQuiet | DoPanic.
+
+Definition dead_out (a : dact) : dout :=
+  match a with DSpawn _ => DoSpawnErr | DPulse _ => DoQuiet end.
+
+(* Dropping the executor drops the queue.  A task that has not finished
+   survives only if a waker of it is kept: on a flag (the harness keeps them
+   for ever) or in the relay of a child it awaits (a reference cycle). *)
+Definition alive_after_drop (sh : shared) (t : tid) : bool :=
+  existsb (fun p => Nat.eqb (snd p) t) (waiters sh) ||
+  existsb (fun k => match rel k with RlPolled w => Nat.eqb w t | _ => false end) (tasks sh).
+
+Definition final_obs_dead (st : sys) (roots : list tid) : list (tid * (tryres * tryres)) :=
+  map (fun r =>
+         match rel (get_task (ss st) r) with
+         | RlComputed v => (r, (TOk v, TAlready))
+         | RlDone => (r, (TAlready, TAlready))
+         | _ => if alive_after_drop (ss st) r then (r, (TNotSent, TNotSent))
+                else (r, (TDropped, TDropped))
+         end) roots.
+
+Definition model_run_dead (fuel : nat) (scripts : list script) (plan : list xact) (tail : list dact)
+  : list rec * list dout * list (tid * (tryres * tryres)) :=
+  let (st, log) := sys_plan fuel scripts sys0 plan in
+  (log, map dead_out tail, final_obs_dead st (roots_of log)).
